@@ -549,7 +549,7 @@ func (g *Engine) registerIntrinsics() {
 		h := a[0].(BArr)
 		return Ptr{obj: e.newObj(BigV{e.tb.ZExt(e.wordFromBytes(h.t, e.tb.BVu(0, 64), 20), 256)}, nil, "big")}
 	}
-	I["(*math/big.Int).String"] =func(e *Exec, fn *ssa.Function, a []Value) Value { return e.freshStr("bigstr", 8) }
+	I["(*math/big.Int).String"] = func(e *Exec, fn *ssa.Function, a []Value) Value { return e.freshStr("bigstr", 8) }
 
 	// ------------------------------------------------------------ bytes, errors, fmt, log, sync
 	I["bytes.Equal"] = func(e *Exec, fn *ssa.Function, a []Value) Value { return e.bytesEq(a[0], a[1]) }
